@@ -28,7 +28,7 @@ import (
 //     work (1.2*lead + sign) never receives less than a node with less work.
 
 const (
-	vpC25Years        = 10000 // mintBatchSize refuses batch/365 > 10000
+	vpC25Years = 10000 // mintBatchSize refuses batch/365 > 10000
 	// A node share is floor(base*f_i/sum f) with f_i >= avg/7, sum f <= 2*avg*n and base =
 	// floor(amount/10)*5, so with n <= 50 every share is at least one unit whenever the
 	// amount is at least 1410 units. Distributions are generated for batches whose
@@ -97,15 +97,15 @@ func (r *vpC25Ref) between(o, b uint64) *big.Int {
 }
 
 func vpC25Units(v common.Integer) *big.Int {
-	b, ok := new(big.Int).SetString(stringsReplaceDot(v.String()), 10)
+	b, ok := new(big.Int).SetString(vpC25StripDot(v.String()), 10)
 	if !ok {
 		panic(v.String())
 	}
 	return b
 }
 
-// stringsReplaceDot turns the fixed 8-place decimal print into units.
-func stringsReplaceDot(s string) string {
+// vpC25StripDot turns the fixed 8-place decimal print into units.
+func vpC25StripDot(s string) string {
 	out := make([]byte, 0, len(s))
 	for i := 0; i < len(s); i++ {
 		if s[i] != '.' {
@@ -242,7 +242,7 @@ func TestVP_C25_schedule_multi(t *testing.T) {
 		maxBatch = uint64(r.firstZero)*365 - 1
 		c.Class("excluded-known")
 	}
-	kit.SetChecks(kit.N(1500, 60000))
+	kit.SetChecks(kit.N(1000, 60000))
 	rapid.Check(t, func(t *rapid.T) {
 		var b uint64
 		if rapid.Bool().Draw(t, "edge") {
@@ -653,7 +653,7 @@ func TestVP_C25_distribution(t *testing.T) {
 	c.Require("built", "not-built", "nontrivial", "clamped-high", "clamped-low", "zero-work-node", "multi-batch", "single-batch", "equal-works-pair", "removed-node-present", "nodes>=30", "validate-only-same-batch")
 	c.Assume(fmt.Sprintf("batches up to %d (single-batch size >= %d units): the smallest node share is then at least 1 unit for 50 nodes; smaller amounts are known finding C25-K2", vpC25Reference().distMax, vpC25DistMinUnits))
 	c.Set("excluded_known_batches_from", vpC25Reference().distMax+1)
-	kit.SetChecks(kit.N(2000, 200000))
+	kit.SetChecks(kit.N(1500, 200000))
 	maxNodes := 50
 	custodian := vpC25Addresses()[128]
 	ref := vpC25Reference()
